@@ -3,7 +3,10 @@
    the NUMBER type name and the characters that select int() vs float().
    int()/float() themselves are ORACLE inputs (orc_int, orc_float): the harness evaluates the real Python
    functions on every stripped text occurring in a case and passes the table.  orc_float returns
-   (repr(float), math.isfinite(float)).  A ValueError/OverflowError is None. *)
+   (repr(x), math.isfinite(x), x == 0) for x = float(text).  A ValueError/OverflowError is None.
+   The mantissa test of the underflow guard (80b6126) is pure string processing and is computed HERE, not by the
+   oracle: mantissa = lower(text) up to the first 'e'; the guard fires iff x == 0 and the mantissa has a char of
+   "123456789" (split char, lower flag, digit set and the guard ORDER are consumed from Gen/RepairGen.v). *)
 From OV Require Import Base.Strs Rep.Ast Gen.RepairGen.
 From Coq Require Import ZArith.
 Open Scope N_scope.
@@ -54,9 +57,21 @@ Definition attempt_enum (v : value) (allowed : list str) : option (value * entry
 Definition use_int (st : str) : bool :=
   forallb (fun p => negb (memb (fst p) (if snd p =? 1 then lower st else st))) repair_int_branch_chars.
 
+(* value_stripped.lower().split('e')[0] : the text before the first split char *)
+Definition mantissa (st : str) : str :=
+  takeb (fun c => negb (c =? repair_mantissa_split)) (if repair_mantissa_lower =? 1 then lower st else st).
+(* any(ch in "123456789" for ch in mantissa) *)
+Definition nonzero_mantissa (st : str) : bool := existsb (fun c => memb c repair_mantissa_digits) (mantissa st).
+
+(* the rejecting guards after `coerced = float(value_stripped)`; fin = math.isfinite(coerced), zero = (coerced == 0) *)
+Definition float_guard_holds (g : N) (st : str) (fin zero : bool) : bool :=
+  if g =? 1 then negb fin
+  else if g =? 2 then zero && nonzero_mantissa st
+  else false.
+
 Section Oracle.
   Variable orc_int : str -> option Z.
-  Variable orc_float : str -> option (str * bool).
+  Variable orc_float : str -> option (str * bool * bool).
 
   Definition attempt_type (v : value) (t : str) : option (value * entry) :=
     if negb (str_eqb t repair_number_type) then None
@@ -72,8 +87,9 @@ Section Oracle.
                       | None => None
                       end
                  else match orc_float st with
-                      | Some (r, fin) =>
-                          if fin then Some (VFloat r, mk_entry repair_rule_type s r repair_tier_type) else None
+                      | Some (r, fin, zero) =>
+                          if existsb (fun g => float_guard_holds g st fin zero) repair_float_guards then None
+                          else Some (VFloat r, mk_entry repair_rule_type s r repair_tier_type)
                       | None => None
                       end
              end
@@ -157,6 +173,11 @@ Lemma repair_dispatch_pin : repair_dispatch = [1; 2].
 Proof. reflexivity. Qed.
 Lemma repair_int_branch_pin : repair_int_branch_chars = [(46, 0); (101, 1)].
 Proof. reflexivity. Qed.
+Lemma repair_float_guards_pin : repair_float_guards = [1; 2].
+Proof. reflexivity. Qed.
+Lemma repair_mantissa_pin :
+  repair_mantissa_split = 101 /\ repair_mantissa_lower = 1 /\ repair_mantissa_digits = [49; 50; 51; 52; 53; 54; 55; 56; 57].
+Proof. repeat split; reflexivity. Qed.
 Lemma repair_tiers_are_REPAIR :
   repair_tier_enum = [82; 69; 80; 65; 73; 82] /\ repair_tier_type = [82; 69; 80; 65; 73; 82].
 Proof. split; reflexivity. Qed.
@@ -164,11 +185,11 @@ Lemma repair_caught_pin : repair_caught = [[86; 97; 108; 117; 101; 69; 114; 114;
 Proof. reflexivity. Qed.
 
 (* ---- table-driven oracle for the extracted driver ------------------------------------------------- *)
-Definition orc_tbl := list (str * (option Z * option (str * bool))).
-Fixpoint tbl_find (t : orc_tbl) (s : str) : option (option Z * option (str * bool)) :=
+Definition orc_tbl := list (str * (option Z * option (str * bool * bool))).
+Fixpoint tbl_find (t : orc_tbl) (s : str) : option (option Z * option (str * bool * bool)) :=
   match t with [] => None | (k, r) :: t' => if str_eqb s k then Some r else tbl_find t' s end.
 Definition tbl_int (t : orc_tbl) (s : str) : option Z := match tbl_find t s with Some (i, _) => i | None => None end.
-Definition tbl_float (t : orc_tbl) (s : str) : option (str * bool) := match tbl_find t s with Some (_, f) => f | None => None end.
+Definition tbl_float (t : orc_tbl) (s : str) : option (str * bool * bool) := match tbl_find t s with Some (_, f) => f | None => None end.
 (* strings the oracle is asked about but which are missing from the table: the driver reports them *)
 Definition repair_tbl (t : orc_tbl) (fix_ : bool) (sch : option schema) (d : list node) : list node * list entry :=
   repair (tbl_int t) (tbl_float t) fix_ sch d.
